@@ -391,7 +391,8 @@ def base_schemas(chk, n):
 
 def fuzz(chk, exe, scratch):
     thorough = chk.tier == 'thorough'
-    ncases = 110000 if thorough else 4200
+    ncases = 100000 if thorough else 4200
+    budget_s = 840 if thorough else 140      # wall-clock cap of the stream (a loaded machine runs fewer cases)
     nbase = 500 if thorough else 80
     all_bases = base_schemas(chk, nbase)
     rng = random.Random(chk.seed * 7919 + 9)
@@ -476,8 +477,8 @@ def fuzz(chk, exe, scratch):
     with concurrent.futures.ThreadPoolExecutor(max_workers=core.NPROC) as ex:
         base_ok = tally(ex.map(work, enumerate(cases), chunksize=4))
         done = len(cases)
-        while done < ncases:
-            chunk = gen_chunk(min(2000, ncases - done))
+        while done < ncases and time.time() - t0 < budget_s:
+            chunk = gen_chunk(min(2000 if thorough else 700, ncases - done))
             tally(ex.map(work, enumerate(chunk, start=done), chunksize=8))
             done += len(chunk)
     ncases_run = total[0]
@@ -495,6 +496,7 @@ def fuzz(chk, exe, scratch):
         mc = ent['case'] if known else minimise(exe, ent['case'], sig, scratch)
         report(chk, exe, mc, ent['class'], ent['out'], scratch, count=ent['count'], mutations=ent['mutations'])
     chk.cov['evaluations'] = ncases_run
+    chk.cov['evaluations_planned'] = ncases
     chk.cov['programs'] = len(all_bases)
     chk.cov['distinct_nontrivial'] = len(distinct)
     chk.cov['rule'] = ('one evaluation = one run of the hardened sbeppc on one garbled case; distinct = distinct '
@@ -618,8 +620,25 @@ def replay(chk, rep):
     if exe is None:
         print('hardened sbeppc does not build:', log[-800:])
         return 1
-    case = decode_case(rep['input'])
     scratch = os.path.join(core.BUILD, 'scratch', 'c09-replay-%d' % os.getpid())
+    if 'input' not in rep:
+        # a "no failing input" replay: theorem / extraction / model-correspondence that no longer checks
+        print('kind  :', rep.get('kind'))
+        print('detail:', json.dumps(rep.get('detail'), indent=1)[:3000])
+        name = (rep.get('detail') or {}).get('lean_witness') if isinstance(rep.get('detail'), dict) else None
+        for site, case, what, rx in WITNESSES:
+            if site == name:
+                shutil.rmtree(scratch, ignore_errors=True)
+                try:
+                    rc, out, new = run_case(exe, case, os.path.join(scratch, 'r'))
+                finally:
+                    shutil.rmtree(scratch, ignore_errors=True)
+                cl = classify(rc, out, new)
+                print('model : %s (Lean witness %s)' % (what, site))
+                print('impl  : rc=%s class=%s' % (rc, json.dumps(cl)))
+                return 0 if (cl['what'] == what and re.search(rx, cl.get('site', ''))) else 1
+        return 1
+    case = decode_case(rep['input'])
     shutil.rmtree(scratch, ignore_errors=True)
     try:
         rc, out, new = run_case(exe, case, os.path.join(scratch, 'r'))
